@@ -285,6 +285,8 @@ class Ctx:
                     ob.status = "failed"
                     ob.model = self.model_values()
                     ob.detail = f"goal: {str(goal)[:300]}"
+                elif self._refute_small(goal, ob):
+                    pass
                 else:
                     ob.status = "undecided"
                     ob.detail = f"z3: {self.solver.reason_unknown()}"
@@ -304,6 +306,25 @@ class Ctx:
             self.assume(goal)
         return ob
 
+    def _refute_small(self, goal: Any, ob: Oblig) -> bool:
+        """An obligation the solver left open is retried with every input sequence limited to two
+        elements: a model found there is a genuine counterexample (a restriction of the inputs can
+        only lose models); finding none decides nothing."""
+        lengths = [term for name, term in self.input_symbols.items() if name.startswith("len(")]
+        if not lengths:
+            return False
+        reason = self.solver.reason_unknown()
+        started = time.time()
+        res = self._check(z3.Not(goal), *[term <= 2 for term in lengths], timeout_ms=min(5000, self.prove_timeout_ms))
+        ob.seconds += time.time() - started
+        if res != z3.sat:
+            self.solver.set("timeout", FEAS_TIMEOUT_MS)
+            return False
+        ob.status = "failed"
+        ob.model = self.model_values()
+        ob.detail = f"goal: {str(goal)[:300]} (open for z3 in general [{reason}]; refuted with input sequences of <= 2 elements)"
+        return True
+
     def model_values(self) -> dict[str, Any]:
         try:
             model = self.solver.model()
@@ -312,6 +333,14 @@ class Ctx:
         out: dict[str, Any] = {}
         for name, term in self.input_symbols.items():
             try:
+                if name.endswith("[]") and z3.is_array(term) and f"len({name[:-2]})" in self.input_symbols:
+                    # a symbolic input sequence: spell out its elements (records field by field)
+                    length = model.eval(self.input_symbols[f"len({name[:-2]})"], model_completion=True)
+                    if z3.is_int_value(length) and 0 <= length.as_long() <= 24:
+                        for k in range(length.as_long()):
+                            self._model_element(model, f"{name[:-2]}[{k}]",
+                                                model.eval(z3.Select(term, k), model_completion=True), out)
+                        continue
                 val = model.eval(term, model_completion=True)
                 if z3.is_int_value(val):
                     out[name] = val.as_long()
@@ -326,6 +355,23 @@ class Ctx:
             except Exception:  # pylint: disable=broad-except
                 out[name] = "?"
         return out
+
+    def _model_element(self, model: Any, name: str, val: Any, out: dict[str, Any]) -> None:
+        for et in self.datatypes.values():
+            if et.kind == "rec" and et.sort == val.sort():
+                for fname, accessor in et.accessors.items():
+                    self._model_element(model, f"{name}.{fname}", model.eval(accessor(val), model_completion=True), out)
+                return
+        if z3.is_int_value(val):
+            out[name] = val.as_long()
+        elif z3.is_true(val) or z3.is_false(val):
+            out[name] = z3.is_true(val)
+        elif z3.is_rational_value(val):
+            out[name] = float(val.numerator_as_long()) / float(val.denominator_as_long())
+        elif val.sort() == StrSort:
+            out[name] = self._model_string(model, val)
+        else:
+            out[name] = str(val)
 
     def _model_string(self, model: Any, val: Any) -> str:
         """A Python string for an abstract string value: the literal it equals, or a fresh token
